@@ -65,7 +65,7 @@ Flush ==
     /\ released' = {}
     /\ order' = <<>>
     /\ faulted' = {}
-    /\ crashes' = 0 /\ faults' = 0
+    /\ crashes' = 0 /\ faults' = 0 /\ closed' = FALSE
     /\ sched' = <<>>
 
 SimNext == (\E r \in Reqs : SimStep(r)) \/ Flush
